@@ -123,11 +123,13 @@ pub struct CmpMask {
     pub times: bool,
     pub data: bool,
     pub dots: bool,
+    /// compare the timestamps of directories too (a directory that had entries written into it is restamped)
+    pub dir_times: bool,
 }
 
 impl CmpMask {
-    pub const ALL: CmpMask = CmpMask { short: true, attr: true, size: true, times: true, data: true, dots: true };
-    pub const NAMES_DATA: CmpMask = CmpMask { short: false, attr: false, size: true, times: false, data: true, dots: false };
+    pub const ALL: CmpMask = CmpMask { short: true, attr: true, size: true, times: true, data: true, dots: true, dir_times: true };
+    pub const NAMES_DATA: CmpMask = CmpMask { short: false, attr: false, size: true, times: false, data: true, dots: false, dir_times: false };
 }
 
 fn sort_key(n: &TNode) -> (Vec<u16>, Vec<u8>) {
@@ -162,7 +164,7 @@ pub fn compare(a_name: &str, a: &[TNode], b_name: &str, b: &[TNode], mask: CmpMa
         if mask.size && !x.is_dir && x.size != y.size {
             return Err(format!("{}: size differs ({} {}, {} {})", p, a_name, x.size, b_name, y.size));
         }
-        if mask.times && !is_dot(x) {
+        if mask.times && !is_dot(x) && (mask.dir_times || !x.is_dir) {
             if x.created != y.created {
                 return Err(format!("{}: created differs ({} {:?}, {} {:?})", p, a_name, x.created, b_name, y.created));
             }
